@@ -30,6 +30,8 @@ def sig_of(v, script):
     kind, cls = v.get("kind"), v.get("cls")
     d = v.get("detail") if isinstance(v.get("detail"), dict) else {}
     obj = (script or {}).get("obj", {})
+    if cls == "emission-does-not-terminate":
+        return "C01/%s/%s/%s" % (kind, cls, str(d.get("via", "drain")).split(" (")[0])
     if cls.startswith("decode"):
         cls = "%s:%s" % (cls, d.get("which", "dec"))
         if kind in ("filepath", "fileheader", "newspath"):
@@ -85,6 +87,9 @@ def run(ctx, prop):
                 scripts.append(it)
 
     _, items = ctx.generate("MC_Wire", "Gen_Wire.cfg", "gen_exh.ndjson", timeout=900)
+    take(items)
+    # scanner-buffer boundaries (field areas / paths ending at or straddling 4096 * 2^k)
+    _, items = ctx.generate("MC_Wire", "Gen_Wire_boundary.cfg" if quick else "Gen_Wire_boundary_deep.cfg", "gen_bound.ndjson", timeout=900)
     take(items)
     n_exh = len(scripts)
     batches = 1 if quick else 6
